@@ -21,9 +21,10 @@ CHECK = {'level': 'exploration',
            {'name': 'overlap', 'pkg': 'db', 'run': '^TestVerif_C17_Overlap$', 'timeout_q': 300, 'timeout_t': 1800},
            {'name': 'race', 'pkg': 'db', 'race': True, 'run': '^TestVerif_C17_Race$', 'timeout_q': 400, 'timeout_t': 2400},
            {'name': 'push', 'pkg': 'rest', 'run': '^TestVerif_C17_Push$', 'timeout_q': 600, 'timeout_t': 2400, 'env': {'SG_TEST_BUCKET_POOL_SIZE': '8'}},
-           {'name': 'push-batches', 'pkg': 'rest', 'run': '^TestVerif_C17_PushBatches$', 'timeout_q': 600, 'timeout_t': 2400, 'env': {'SG_TEST_BUCKET_POOL_SIZE': '8'}}],
+           {'name': 'push-batches', 'pkg': 'rest', 'run': '^TestVerif_C17_PushBatches$', 'timeout_q': 600, 'timeout_t': 2400, 'env': {'SG_TEST_BUCKET_POOL_SIZE': '8'}},
+           {'name': 'pull', 'pkg': 'rest', 'run': '^TestVerif_C17_Pull$', 'timeout_q': 600, 'timeout_t': 2400, 'env': {'SG_TEST_BUCKET_POOL_SIZE': '8'}}],
  'min_evals': 1000000,
- 'min_counters': {'push.checkpoint_values_judged': 3, 'push-batches.checkpoint_values_judged': 3, 'push-batches.documents_pushed': 30,
+ 'min_counters': {'push.checkpoint_values_judged': 3, 'push-batches.checkpoint_values_judged': 3, 'push-batches.documents_pushed': 30, 'pull.checkpoint_values_judged': 3, 'pull.documents_pulled': 30,
                   'exhaustive.interleavings': 1000000,
                   'exhaustive.ticks_checked': 1000000,
                   'exhaustive.compactions': 100000,
@@ -47,7 +48,7 @@ CHECK = {'level': 'exploration',
  'race_state': ['c.expectedSeqs', 'c.processedSeqs', 'c.lastCheckpointSeq', 'c.idAndRevLookup', 'c.stats', 'c.stats.ProcessedSequenceCount',
                 'c.stats.ExpectedSequenceCount', 'c.stats.AlreadyKnownSequenceCount', 'c.stats.SetCheckpointCount', 'c.lastLocalCheckpointRevID',
                 'c.lastRemoteCheckpointRevID'],
- 'assumptions': ['push part: two real gateways over loopback, passive store slowed by 30-80 ms per pushed document, checkpoint interval 2 ms, the window between the two checkpointer notifications of a changes response widened by 25 ms through hook H2 (verifPoint); every value reaching the active side\'s checkpoint document is judged when it is written; push-batches part: the same with changes batch size 2-3 and the active side reading the documents of the first batch 40-90 ms slower (delays only select the schedule that is executed; the verdict compares the persisted value with what the passive side has stored at that moment)',
+ 'assumptions': ['push part: two real gateways over loopback, passive store slowed by 30-80 ms per pushed document, checkpoint interval 2 ms, the window between the two checkpointer notifications of a changes response widened by 25 ms through hook H2 (verifPoint); every value reaching the active side\'s checkpoint document is judged when it is written; push-batches part: the same with changes batch size 2-3 and the active side reading the documents of the first batch 40-90 ms slower (delays only select the schedule that is executed; the verdict compares the persisted value with what the passive side has stored at that moment); pull part: the pulling side stores (and, in half of the rounds, looks up) documents 30-80 ms slower, batch size 2/3/200, the window between the expected and already-known notifications of a pulled batch widened by 25 ms through hook H2',
                  'notifications are protocol-conformant: announcements reach the checkpointer in feed order (non-decreasing under SequenceID.Before), each '
                  'position is announced once, completions arrive in any order (also before their announcement, as in push)',
                  'the order in which the real callers deliver the notifications of one changes batch (push: already-known before expected) is outside this '
@@ -72,4 +73,4 @@ META = {'technique': 'runtime monitoring: the real Checkpointer list logic and C
         'level_note': 'Trusted: the harness model (announced prefix / reported set), the hand-written feed transcripts as ground truth for feed order, the recording '
                       'peer, Go runtime and race detector. Inputs are restricted to protocol-conformant notification orders; whether the real push replicator '
                       'delivers such orders is decided separately by the push and push-batches parts (two gateways, every persisted checkpoint value judged against '
-                      'what the passive side has stored); the pull replicator\'s caller order is not driven at system level.'}
+                      'what the passive side has stored); the pull part does the same in the other direction (checkpoint values are sequences of the passive database, judged against what the pulling side has stored).'}
